@@ -24,6 +24,7 @@ import (
 	"fmt"
 	"math/rand"
 	"reflect"
+	"runtime/debug"
 	"sort"
 	"strings"
 	"time"
@@ -325,10 +326,32 @@ func (r *c18Run) apply(h *gorm.DB, binds []c18Bind, cur int) (*gorm.DB, int) {
 	return h, cur
 }
 
+// c18NilCtxPanic: a nil-pointer panic raised INSIDE database/sql while gorm calls it = gorm handed
+// database/sql a nil context (ctx.Done() on a nil interface); anything else is an ordinary failure
+// of the operation (e.g. a polluted re-used handle) and is not judged.
+type c18NilCtxPanic struct{ where string }
+
+func (e c18NilCtxPanic) Error() string {
+	return "gorm passed a nil context to database/sql (nil-pointer panic inside " + e.where + ")"
+}
+
 func c18Safely(f func() error) (err error) {
 	defer func() {
 		if p := recover(); p != nil {
 			err = fmt.Errorf("panic: %v", p)
+			st := string(debug.Stack())
+			if strings.Contains(fmt.Sprint(p), "nil pointer") {
+				// the frame right below the runtime's panic frames
+				lines := strings.Split(st, "\n")
+				for i, l := range lines {
+					if strings.HasPrefix(l, "panic(") && i+2 < len(lines) {
+						if strings.HasPrefix(lines[i+2], "database/sql.") {
+							err = c18NilCtxPanic{where: strings.SplitN(lines[i+2], "(0x", 2)[0]}
+						}
+						break
+					}
+				}
+			}
 		}
 	}()
 	return f()
@@ -394,7 +417,18 @@ func c18Execute(c c18Case, res *Result) (viol string, nCtxEvents int, opErr erro
 		return "", 0, fmt.Errorf("unknown op %s", c.Op)
 	}
 	rng := rand.New(rand.NewSource(c.DataSeed))
-	db, rec, closeFn := c18OpenWorld(&gorm.Config{PrepareStmt: c.Prepare, SkipDefaultTransaction: c.SkipDefTx}, rng)
+	var db *gorm.DB
+	var rec *c18Recorder
+	closeFn := func() {}
+	if err := c18Safely(func() error {
+		db, rec, closeFn = c18OpenWorld(&gorm.Config{PrepareStmt: c.Prepare, SkipDefaultTransaction: c.SkipDefTx}, rng)
+		return nil
+	}); err != nil {
+		if np, ok := err.(c18NilCtxPanic); ok {
+			return "while seeding the world from the root handle (context.Background): " + np.Error(), 0, err
+		}
+		panic(err)
+	}
 	defer closeFn()
 	r := &c18Run{c: c, db: db, rec: rec}
 	for i := 0; i < c.NCtx; i++ {
@@ -439,6 +473,9 @@ func c18Execute(c c18Case, res *Result) (viol string, nCtxEvents int, opErr erro
 			var n int64
 			_ = c18Safely(func() error { return p.h.Session(&gorm.Session{NewDB: true}).Model(&RCompany{}).Count(&n).Error })
 		}
+	}
+	if np, ok := r.opErr.(c18NilCtxPanic); ok && c.Mode == "live" {
+		return np.Error(), 0, r.opErr
 	}
 	evs := rec.snapshot()
 	segOf := func(i int) c18Seg {
@@ -534,6 +571,39 @@ func init() {
 		}
 		if v, _, _ := c18Execute(c, r); v != "" {
 			r.Violate(Violation{Kind: "e2e", Suite: "bind", Input: c, Observed: v, Expected: c18Expected(c.Mode)})
+		}
+	}
+}
+
+func init() {
+	// the fixed-binding suite "ctx" (c18.go) stores {op, prepareStmt, txDepth, via}: replay it as the equivalent bind case
+	replayers["C18/ctx"] = func(r *Result, input json.RawMessage) {
+		var in struct {
+			Op      string `json:"op"`
+			Prepare bool   `json:"prepareStmt"`
+			Depth   int    `json:"txDepth"`
+			Via     int    `json:"via"`
+		}
+		if err := json.Unmarshal(input, &in); err != nil {
+			return
+		}
+		c := c18Case{Op: in.Op, Prepare: in.Prepare, Mode: "live", DataSeed: 1, NCtx: 1}
+		switch in.Via {
+		case 0:
+			c.Binds = []c18Bind{{Kind: "with", Ctx: 0}}
+		case 1:
+			c.Binds = []c18Bind{{Kind: "sess", Ctx: 0}}
+		default:
+			c.Binds = []c18Bind{{Kind: "chain", Ctx: -1, Chain: "Where"}, {Kind: "with", Ctx: 0}, {Kind: "sess", Flags: []string{"NewDB"}, Ctx: -1}}
+		}
+		for i := 0; i < in.Depth; i++ {
+			c.Layers = append(c.Layers, c18Layer{Kind: "block"})
+		}
+		for _, mode := range []string{"live", "cancelled"} {
+			c.Mode = mode
+			if v, _, _ := c18Execute(c, r); v != "" {
+				r.Violate(Violation{Kind: "e2e", Suite: "bind", Input: c, Observed: v, Expected: c18Expected(mode)})
+			}
 		}
 	}
 }
